@@ -160,7 +160,11 @@ def _sum_outer(x):
 
 def _eigh(a, b, dim):
   try:
-    return scipy.sparse.linalg.eigsh(a, k=dim, M=b, which='LA')
+    # (a fixed starting vector: by default ARPACK draws one from numpy's
+    # global random state, which makes the result - at least the signs of the
+    # components - differ from one fit to the next)
+    v0 = np.ones(a.shape[0])
+    return scipy.sparse.linalg.eigsh(a, k=dim, M=b, which='LA', v0=v0)
   except np.linalg.LinAlgError:
     pass  # scipy already tried eigh for us
   except (ValueError, scipy.sparse.linalg.ArpackNoConvergence):
